@@ -156,7 +156,11 @@ def job(j):
         ogb = so.observe_modes(tm, ts, Y, w, fallback=fb, seed=sd)
         if og["fits"] and ogb["fits"] and og["fits"][0]["run"] is not None and ogb["fits"][0]["run"] is not None:
             XA, XB = og["fits"][0]["data"], ogb["fits"][0]["data"]
-            if XA.shape == XB.shape and np.array_equal(og["choices"][0]["idx"], ogb["choices"][0]["idx"]):
+            # the two constructions are coupled only if they resampled the SAME rows; how the rows are drawn (numpy.random.choice or
+            # any other equal-weight resampling) is not prescribed: without an observed draw the fitted data themselves decide
+            same_rows = (np.array_equal(og["choices"][0]["idx"], ogb["choices"][0]["idx"]) if (og.get("choices") and ogb.get("choices"))
+                         else (XA.shape == XB.shape and np.array_equal(so.apply_map(g, XA), XB)))
+            if XA.shape == XB.shape and same_rows:
                 YA = so.apply_map(g, XA)
                 ra, rb = og["fits"][0]["run"], ogb["fits"][0]["run"]
                 if not (np.array_equal(YA, XB) and np.all(XA.std(axis=0) > 0) and len(np.unique(XA, axis=0)) >= 4 * d):  # n >= 4d is asked of the support
